@@ -55,7 +55,7 @@ func dispatcherOf(p *core.Prog, m *replyModel) []*ssa.Function {
 		if cl == nil {
 			continue
 		}
-		for _, c := range core.Calls(fn) {
+		for _, c := range helperCalls(p, fn) {
 			if core.IsDynamic(c) && m.takesT(c) {
 				out = append(out, fn)
 				break
@@ -191,7 +191,33 @@ func c04(r *core.Run) {
 		for _, d := range dispatcherOf(p, m) {
 			nDisp++
 			dn := core.FuncName(d)
+			exemptWhy := func(ret *ssa.Return) string {
+				var conds []string
+				for _, e := range dominatingEdges(ret) {
+					conds = append(conds, describeCond(e))
+				}
+				for _, c := range conds {
+					if c == "Handler.Access==nil" {
+						return "access request to a pattern registered without an access handler is left unanswered (stated in the property)"
+					}
+				}
+				if tn == "Request" && isUnknownTypeReturn(conds) {
+					return "request type is none of the dispatched constants; such a subject is never subscribed (C05.D1 checks the two sets agree)"
+				}
+				return ""
+			}
+			m.exemptRet = exemptWhy
+			m.Exempted = map[*ssa.Return]string{}
 			res := m.flow(d, core.StateSet(0).Add(stNo))
+			m.exemptRet = nil
+			for ret, why := range m.Exempted {
+				var conds []string
+				for _, e := range dominatingEdges(ret) {
+					conds = append(conds, describeCond(e))
+				}
+				r.ExemptObl("R1", core.FuncName(ret.Parent()), "return:"+returnDesc(ret, conds), p.InstrPos(ret), why)
+			}
+			m.Exempted = nil
 			for _, ret := range core.Returns(d) {
 				if d.Recover != nil && ret.Block() == d.Recover {
 					continue // the recover block: reached only after the deferred closure ran (R2)
@@ -206,15 +232,7 @@ func c04(r *core.Run) {
 					conds = append(conds, describeCond(e))
 				}
 				desc := returnDesc(ret, conds)
-				exempt := ""
-				for _, c := range conds {
-					if c == "Handler.Access==nil" {
-						exempt = "access request to a pattern registered without an access handler is left unanswered (stated in the property)"
-					}
-				}
-				if exempt == "" && tn == "Request" && isUnknownTypeReturn(conds) {
-					exempt = "request type is none of the dispatched constants; such a subject is never subscribed (C05.D1 checks the two sets agree)"
-				}
+				exempt := exemptWhy(ret)
 				switch {
 				case st.Only(stYes):
 					r.OK("R1", dn, "return:"+desc, p.InstrPos(ret), "state=Yes on every path to this return")
@@ -229,9 +247,9 @@ func c04(r *core.Run) {
 			// R2
 			cl, def := deferredRecover(d)
 			firstHandler := true
-			for _, c := range core.Calls(d) {
+			for _, c := range helperCalls(p, d) {
 				if (core.IsDynamic(c) || c.Common().IsInvoke()) && m.takesT(c) {
-					if !core.Dominates(def, c) {
+					if !p.DominatesIn(d, def, c) {
 						firstHandler = false
 					}
 				}
@@ -262,7 +280,7 @@ func c04(r *core.Run) {
 					r.Bad("R2", core.FuncName(cl), "return:"+desc, p.InstrPos(ret), "state="+stateStr(st)+": a panic value reaches this return without a reply")
 				}
 			}
-			closureArms[tn] = typeSwitchArms(cl)
+			closureArms[tn] = typeSwitchArms(p, cl)
 			// the recovered panic must not be replaced by a new one: no explicit panic reachable from the
 			// closure, neither in its own body nor (flag-sensitively) in the library functions it calls.
 			for _, b := range cl.Blocks {
@@ -313,8 +331,7 @@ func c04(r *core.Run) {
 				if m == nil || !m.takesT(c) {
 					continue
 				}
-				cl, def := deferredRecover(fn)
-				ok := cl != nil && core.Dominates(def, c)
+				ok := coveredByRecover(p, c, 0)
 				r.Check(ok, "R5", core.FuncName(fn), "handler-call("+tn+"):"+valDesc(c.Common().Value), p.InstrPos(c),
 					"handler call is covered by a deferred recover closure of the same function", "handler call without a deferred recover in the enclosing function: a panic would kill the worker and lose the reply")
 			}
@@ -442,6 +459,11 @@ func c04(r *core.Run) {
 			if disp[fn] {
 				continue // judged by R1
 			}
+			if p.IsPrivateHelper(fn) && judgedByCallers(p, m, fn, disp, map[*ssa.Function]bool{}) {
+				nMay++
+				r.OK("R4", core.FuncName(fn), "private-helper-judged-in-callers", p.Pos(fn.Pos()), "a private helper: its body is analysed in place in every caller (dispatcher, recover function or response method), whose own obligation covers it")
+				continue
+			}
 			nMay++
 			if m.must[fn] {
 				r.OK("R4", core.FuncName(fn), "may-reply=>must-reply", p.Pos(fn.Pos()), "every normal return has state Yes (entry state arbitrary)")
@@ -496,12 +518,14 @@ func isUnknownTypeReturn(conds []string) bool {
 }
 
 // typeSwitchArms renders the set of asserted types of a closure's type switch.
-func typeSwitchArms(fn *ssa.Function) string {
+func typeSwitchArms(p *core.Prog, fn *ssa.Function) string {
 	set := map[string]bool{}
-	for _, b := range fn.Blocks {
-		for _, in := range b.Instrs {
-			if ta, ok := in.(*ssa.TypeAssert); ok && ta.CommaOk {
-				set[core.TypeName(ta.AssertedType)] = true
+	for _, f2 := range p.Helpers(fn) {
+		for _, b := range f2.Blocks {
+			for _, in := range b.Instrs {
+				if ta, ok := in.(*ssa.TypeAssert); ok && ta.CommaOk {
+					set[core.TypeName(ta.AssertedType)] = true
+				}
 			}
 		}
 	}
@@ -575,7 +599,8 @@ func (pm *panicModel) mayPanic(fn *ssa.Function, st int, tracks bool, depth int)
 				if cal == nil || cal.Blocks == nil || cal.Pkg != fn.Pkg {
 					continue
 				}
-				t := tracks && pm.m.takesT(x)
+				// a local closure captures the request: the flag stays tracked through it
+				t := tracks && (pm.m.takesT(x) || cal.Parent() != nil)
 				for _, s2 := range res.Before[in].List() {
 					if w := pm.mayPanic(cal, s2, t, depth+1); w != "" {
 						out = w
@@ -589,4 +614,73 @@ func (pm *panicModel) mayPanic(fn *ssa.Function, st int, tracks bool, depth int)
 		}
 	}
 	return ""
+}
+
+// coveredByRecover: the handler call c lies in a function that defers a
+// recover function before it, or in a private helper all of whose call sites
+// are (recursively) so covered.
+func coveredByRecover(p *core.Prog, c ssa.Instruction, depth int) bool {
+	fn := c.Parent()
+	if cl, def := deferredRecover(fn); cl != nil && core.Dominates(def, c) {
+		return true
+	}
+	if depth > 4 || !p.IsPrivateHelper(fn) {
+		return false
+	}
+	for _, cs := range p.CallersOf(fn) {
+		if !coveredByRecover(p, cs, depth+1) {
+			return false
+		}
+	}
+	return true
+}
+
+// judgedByCallers: every caller of the private helper fn is a dispatcher, a
+// recover function, a may-reply method (R4 judges it) or again such a helper.
+func judgedByCallers(p *core.Prog, m *replyModel, fn *ssa.Function, disp map[*ssa.Function]bool, seen map[*ssa.Function]bool) bool {
+	if seen[fn] {
+		return true
+	}
+	seen[fn] = true
+	for _, c := range p.CallersOf(fn) {
+		caller := core.Outermost(c.Parent())
+		buildsT := false
+		for _, b := range caller.Blocks {
+			for _, in := range b.Instrs {
+				if al, ok := in.(*ssa.Alloc); ok && core.TypeName(al.Type()) == qual(m.rel, m.tname) {
+					buildsT = true
+				}
+			}
+		}
+		switch {
+		case disp[caller], m.may[caller] && !p.IsPrivateHelper(caller), buildsT:
+			// (the function that builds the request object runs the whole exchange: R3 / C15.R1 judge it)
+			continue
+		case p.IsPrivateHelper(caller):
+			if !judgedByCallers(p, m, caller, disp, seen) {
+				return false
+			}
+		default:
+			// e.g. the deferred recover function of a dispatcher, or pre-dispatch processing (R3)
+			isRecover := false
+			for _, cc := range core.Calls(caller) {
+				if core.CalleeName(cc) == "builtin:recover" {
+					isRecover = true
+				}
+			}
+			// the function that builds the request object runs the whole exchange (R3 / C15.R1 judge it)
+			builds := false
+			for _, b := range caller.Blocks {
+				for _, in := range b.Instrs {
+					if al, ok := in.(*ssa.Alloc); ok && core.TypeName(al.Type()) == qual(m.rel, m.tname) {
+						builds = true
+					}
+				}
+			}
+			if !isRecover && !m.may[caller] && !builds {
+				return false
+			}
+		}
+	}
+	return true
 }
